@@ -23,11 +23,57 @@ def gen_calls(rng, n):
     return out
 
 
+def gen_urw_case(rng):
+    """urw <seed> <iters> <tasks id:parent:loc:sig:psig> <calls>: a spawn tree and, per execution, a walk in which tasks
+    appear in id order (a spawned task is offered at the next decision), finish, and are offered in varying subsets."""
+    n = rng.randint(1, 6)
+    parent = [None] + [rng.randrange(0, i) for i in range(1, n)]
+    loc = [rng.randrange(3) for _ in range(n)]
+    keys = {}
+    sig = []
+    nkids = {}
+    for i in range(n):
+        ps = 0 if parent[i] is None else sig[parent[i]]
+        cnt = nkids.get((ps, loc[i]), 0) if parent[i] is not None else 0
+        nkids[(ps, loc[i])] = cnt + 1
+        # the root's signature depends on its location only
+        k = (ps, loc[i], cnt)
+        if k not in keys:
+            keys[k] = len(keys) + 1
+        sig.append(keys[k])
+    tasks = ",".join("%d:%s:%d:%d:%d" % (i, "-" if parent[i] is None else parent[i], loc[i], sig[i], 0 if parent[i] is None else sig[parent[i]]) for i in range(n))
+    iters = rng.choice([1, 2, 3, 4, 6])
+    calls = []
+    wild = rng.random() < 0.12
+    for it in range(iters + (1 if rng.random() < 0.3 else 0)):
+        calls.append("E")
+        created = 1
+        alive = [0]
+        for _ in range(rng.randint(0, 14)):
+            if rng.random() < 0.08:
+                calls.append("U")
+                continue
+            # spawn: a parent that is alive gets its next child
+            if created < n and parent[created] in alive and rng.random() < 0.45:
+                alive.append(created)
+                created += 1
+                offered = sorted(alive) if not wild else sorted(set(alive) - set(rng.sample(alive, rng.randint(0, 1))))
+            else:
+                offered = [t for t in alive if rng.random() < 0.8] or [rng.choice(alive)]
+            if wild and rng.random() < 0.1 and created < n:
+                offered = sorted(set(offered) | {n - 1})
+            calls.append("T:" + ".".join(map(str, sorted(offered))))
+            if len(alive) > 1 and rng.random() < 0.12:
+                alive.remove(rng.choice(alive))
+    return "urw %d %d %s %s" % (rng.getrandbits(rng.choice([16, 48, 64])), iters, tasks, ",".join(calls))
+
+
 def run(tier):
     ctx = Ctx("C10", tier)
     rng = ctx.rng
     ctx.gen_params()
     ctx.proof_gate(PROPS)
+    ctx.proof_gate("Props/C10urw.v")
     if not (ctx.build_model() and ctx.build_harness()):
         return ctx.finish()
     n = 400 if tier == "quick" else 4000
@@ -95,6 +141,30 @@ def run(tier):
                 ctx.violation({"layer": "sched", "cases": [rep_cases[k]], "implementation_answer": rio[k][:1500], "expected_from_original_iteration": rep_expect[k][:1500],
                                "why": "the seed reported for an iteration, given back with one iteration, did not reproduce that iteration's decisions and data draws"})
     ctx.log("iteration-seed reproduction: %d iterations re-run from their reported seed" % len(rep_cases))
+    # the uniform random walk scheduler, call by call against Sched/Urw.v
+    uc = [gen_urw_case(rng) for _ in range(1500 if tier == "quick" else 20000)]
+    umo, uio, um = ctx.differential("sched", uc)
+    ends = {}
+    for o in uio:
+        e = (o or "?").split(",")[-1][:1]
+        ends[e] = ends.get(e, 0) + 1
+    for k, v in ends.items():
+        ctx.dist("urw.last_answer." + {"P": "panic", "t": "task", "u": "draw", "e": "new_execution"}.get(k, "other"), v)
+    ctx.log("URW call sequences: %d sessions, %d model/impl mismatches" % (len(uc), len(um)))
+    if um:
+        ctx.disagreements_checked += len(um)
+        ctx.broken.append({"kind": "correspondence", "layer": "sched", "what": "Sched/Urw.v and urw.rs disagree on %d of %d call sequences; the theorems C10_urw_* are about a model that no longer describes the code" % (len(um), len(uc)),
+                           "examples": [{"case": uc[i], "model": umo[i], "impl": uio[i]} for i in um[:3]]})
+    # oracle on the implementation's own answers: the chosen task is one of the offered ones
+    nbad = 0
+    for c, o in zip(uc, uio):
+        calls = c.split(" ")[4].split(",")
+        for call, ans in zip(calls, (o or "").split(",")):
+            if call.startswith("T:") and ans.startswith("t") and ans[1:] not in call[2:].split("."):
+                nbad += 1
+                if nbad <= 2:
+                    ctx.violation({"layer": "sched", "cases": [c], "implementation_answer": o, "why": "UrwRandomScheduler returned a task that was not offered"})
+    ctx.sample({"case": uc[0], "impl": uio[0]})
     # programs on the real runtime: same seed twice (random and URW), and every random iteration re-run from its reported seed
     import gen_prog
     pc = []
@@ -178,7 +248,8 @@ def run(tier):
     if mism or rmism:
         ex = [{"case": cases[i][:300], "model": mo[i][:300], "impl": io[i][:300]} for i in mism[:3]] + [{"case": rep_cases[i][:300], "model": rmo[i][:300], "impl": rio[i][:300]} for i in rmism[:3]]
         ctx.broken.append({"kind": "correspondence", "layer": "sched", "what": "Sched/Random.v (theorems C10_*) and random.rs / data/random.rs / rand / rand_pcg disagree on %d cases" % (len(mism) + len(rmism)), "examples": ex})
-    ctx.cov["rule"] = ("call sequences (new_execution / next_task over 1..64 offered tasks / next_u64) on RandomScheduler::new_from_seed for boundary and random seeds, "
+    ctx.cov["rule"] = ("call sequences on UrwRandomScheduler::new_from_seed (spawn trees of 1..6 tasks with real TaskSignatures built by new_parentless / new_child at three call sites; per execution a walk in which tasks appear in id order, finish and are offered in varying subsets; trial run, estimation with parent subsumption, weighted walks, budget; an eighth of the sessions unguided) compared answer by answer with Sched/Urw.v; "
+                       "call sequences (new_execution / next_task over 1..64 offered tasks / next_u64) on RandomScheduler::new_from_seed for boundary and random seeds, "
                        "answers compared bit-exactly with the Coq model of Pcg64Mcg + rand 0.8 sampling; every iteration re-run from its reported seed; every case run twice")
     ctx.sample({"case": cases[0][:200], "impl": io[0][:200]})
     if rep_cases:
